@@ -74,6 +74,7 @@ from halmos.contract import (
     OP_BLOCKHASH,
     OP_BYTE,
     OP_CALL,
+    OP_CALLCODE,
     OP_CALLDATACOPY,
     OP_CALLDATALOAD,
     OP_CALLDATASIZE,
